@@ -160,9 +160,11 @@ pub fn load_table(workload_dir: &str, table: &str, key_seed: u64, timeout: Durat
         if let Outcome::ParseFail(m) = &r.outcome {
             parse_failures.push(format!("{}: {}", t.key(), m));
         }
-        if let Outcome::Died(_) = &r.outcome {
+        if let Outcome::Died(m) = &r.outcome {
             // somebody already paid for finding out that this module never finishes
-            refs.timeout = refs.timeout.min(Duration::from_secs(3));
+            if m.contains("did not finish within") {
+                refs.timeout = refs.timeout.min(Duration::from_secs(3));
+            }
         }
         let ndiags = if let Outcome::Returned(o) = &r.outcome { o.diags.len() as u32 } else { 0 };
         if let Some(v) = oracle::check_solo(i, t, &r) {
